@@ -264,7 +264,7 @@ fn nontrivial(s: &str) -> bool {
 
 fn protocol_cases() -> Vec<String> {
     let mut v = vec![];
-    let schemes = ["file", "ftp", "http", "https", "File", "FTP", "hTTp", "HTTPS", "filex", "ftps", "htt", "xfile", "", "fıle", "ﬁle"];
+    let schemes = ["file", "ftp", "http", "https", "File", "FTP", "hTTp", "HTTPS", "filex", "ftps", "htt", "xfile", "", "fıle", "ﬁle", "httpſ", "HTTPſ", "ﬁLE", "ſftp", "Ftp", "hTtPs"];
     let seps = ["://", ":/", "//", ":", ":///", "://:", "::/"];
     let tails = ["", "a", "/a", "a/b", "//a", "é", "file://x", "ftp://", "HTTP://a"];
     for s in schemes {
@@ -280,7 +280,7 @@ fn protocol_cases() -> Vec<String> {
 }
 
 pub fn run(c: &Ctx) {
-    c.set_rule("exhaustive: every string over {'/','.',':','a','é','日','😀'} up to length 4 (quick) / 5 (thorough) for single-argument laws; every ordered pair of such strings up to length 3 (quick) / 4 (thorough) for two-argument laws; a protocol table (scheme case variants x separator near-misses x tails); then seeded random strings <=24 symbols over an adversarial alphabet. One executable law per clause of the statement. Non-trivial = an argument with a multi-byte character or >=2 leading separators; distinct by argument tuple.");
+    c.set_rule("exhaustive: every string over {'/','.',':','a','é','日','😀'} up to length 4 (quick) / 5 (thorough) for single-argument laws; every ordered pair of such strings up to length 3 (quick) / 4 (thorough) for two-argument laws; a protocol table (scheme case variants, look-alikes whose upper/lower-case forms collide with a scheme, x separator near-misses x tails); colon lists with white space at entry ends; then seeded random strings <=24 symbols over an adversarial alphabet. One executable law per clause of the statement. Non-trivial = an argument with a multi-byte character or >=2 leading separators; distinct by argument tuple.");
     c.assume("std::path::Path::components/extension/file_name/parent are correct (used to state component-level laws)");
     c.assume("trim_ext/name inverse laws are asserted where the string ends with its file name (std ignores trailing separators when computing the extension); other inputs only have to not panic");
     let single_len = c.tier.pick(4, 5);
@@ -319,6 +319,13 @@ pub fn run(c: &Ctx) {
         c.nontrivial(fp(&("proto", &p)));
         c.class("protocol-table");
         c.judge("single", &p, check_single(&p));
+    }
+    // colon lists whose entries begin or end with white space of any kind (an entry is listed verbatim)
+    for p in ["/a:/b ", "/a: ", "/a:/b\n", " /a:/b", "/a:/b\t", "/a :/b", "\u{a0}", "/a:\u{3000}", "/a:/b\r\n", " ", ":: ", "/a:\n"] {
+        c.eval(1);
+        c.nontrivial(fp(&("list", p)));
+        c.class("list-table:white-space");
+        c.judge("single", &p.to_string(), check_single(p));
     }
     c.note("exhaustive_space", format!("{} single strings (len<={}), {} ordered pairs (len<={})", singles.len(), single_len, n * n, pair_len));
     c.set_exhaustive(true);
